@@ -1491,6 +1491,9 @@ func c09(r *core.Run) {
 			o.Fail(loadPkg, "expected two Add sites, two reductions and their closures, found %d sites", n)
 		}
 	})
+
+	// round 9: the threshold the overload test compares with is the configured one
+	c09r9(r, c, need)
 }
 
 // c09RealPerSecond decides whether v is the real number 1 s / bucket: a floating-point division
